@@ -2,6 +2,7 @@
 package operatorh
 
 import (
+	"fmt"
 	"context"
 	"math/rand"
 	"sort"
@@ -61,7 +62,11 @@ func StepRec(s operator.OpStep) trace.Ev {
 	case operator.MergeRegion:
 		return trace.Ev{"k": "Merge", "passive": x.IsPassive}
 	case operator.SplitRegion:
-		return trace.Ev{"k": "Split", "keys": []string{string(x.StartKey), string(x.EndKey)}}
+		sk := []string{}
+		for _, k := range x.SplitKeys {
+			sk = append(sk, fmt.Sprintf("%x", k))
+		}
+		return trace.Ev{"k": "Split", "keys": []string{string(x.StartKey), string(x.EndKey)}, "split_keys": sk}
 	}
 	return trace.Ev{"k": "Other", "text": s.String()}
 }
